@@ -22,7 +22,7 @@ def gen_trace(seed, world, tier):
     R = sub_rng(seed, "C19")
     n = R.randint(1, 6 if tier == "quick" else 8)
     fam = R.choice(["herm_pos", "herm_neg", "herm_mixed", "herm_mixed", "general", "general_int"])
-    scale = R.choice([0, 0, 0, 0, -6, 6, -3, 3, -12, 12, -9])
+    scale = R.choice([0, 0, 0, 0, -6, 6, -3, 3, -12, 12, -9, -17, 17, -15])
     # reducible Hermitian matrices (diagonal / block diagonal, dominant eigenvector away from
     # e_1): a start vector that is not random in every component never reaches it
     shape = R.choice(["dense", "dense", "dense", "diag", "blockdiag"]) if n >= 2 else "dense"
